@@ -271,8 +271,8 @@ _PLUS = _STD + ' & r9.1 is None'
 _NOPLUS = _STD + ' & r9.1 is Some'
 _RPS = '(%s & `r10.0 has REFERENCE_PICTURE_SELECTION` | %s & `r9.0 has REFERENCE_PICTURE_SELECTION`)' % (_PLUS, _STD)
 _RPR = '(%s & `r10.0 has REFERENCE_PICTURE_RESAMPLING` | %s & `r9.0 has REFERENCE_PICTURE_RESAMPLING`)' % (_PLUS, _STD)
-_DIFF = ('previous_picture is Some & (%s & !`r10.3 has HAS_CUSTOM_FORMAT` & `map(previous_picture, {closure#1}(r10.1))` | %s & `r10.3 has HAS_CUSTOM_FORMAT` & '
-         '`map(previous_picture, {closure#1}(Some(Extended(r12))))` | %s & `map(previous_picture, {closure#1}(Some(r9.1.as1.0.0)))`)' % (_PLUS, _PLUS, _NOPLUS))
+_DIFF = ('previous_picture is Some & (%s & !`r10.3 has HAS_CUSTOM_FORMAT` & `fmtdiff(r10.1)` | %s & `r10.3 has HAS_CUSTOM_FORMAT` & '
+         '`fmtdiff(Some(Extended(r12)))` | %s & `fmtdiff(Some(r9.1.as1.0.0))`)' % (_PLUS, _PLUS, _NOPLUS))
 _RPRP = '%s & (%s | %s)' % (_STD, _RPR, _DIFF)
 _PB = '(%s & r10.2 is PbFrame/ImprovedPbFrame | %s & r9.1.as1.0.1 is PbFrame/ImprovedPbFrame)' % (_PLUS, _NOPLUS)
 PICTURE_FIELDS = ['version', 'temporal_reference', 'format', 'options', 'has_plusptype', 'has_opptype', 'picture_type', 'motion_vector_range', 'slice_submode',
@@ -469,6 +469,49 @@ def one_bit_each(ck, T, fn, spec, rename, b):
         ck.violation('T', 'T : %s : extra flags' % fn, where_of(b), 'unexpected insertions %s' % sorted(extra))
 
 
+def rename_atoms(dnf, f):
+    """the DNF with every atom text passed through f (canonical names for atoms that different spellings of one test produce)"""
+    out = set()
+    for c in dnf:
+        out.add(frozenset((('A', f(d[1]), d[2]) if d[0] == 'A' else d) for d in c))
+    return frozenset(out)
+
+
+def _assume_false(dnf, pred):
+    """dnf restricted to the assignments on which every atom matching pred is false"""
+    out = set()
+    for c in dnf:
+        keep = True; lits = []
+        for d in c:
+            if d[0] == 'A' and pred(d[1]):
+                if d[2]: keep = False; break
+                continue
+            lits.append(d)
+        if keep: out.add(frozenset(lits))
+    from ..bitslice import simplify
+    return simplify(frozenset(out)) if out else FALSE
+
+
+class View:
+    """a Table seen through (a) VLC table operands by name and (b) an assumption that some atoms are false"""
+    def __init__(self, T, pred=None, rename=None):
+        self.T = T; self.pred = pred; self.rename = rename
+    def __getattr__(self, k): return getattr(self.T, k)
+    def _c(self, d):
+        if self.rename: d = rename_atoms(d, self.rename)
+        return _assume_false(d, self.pred) if self.pred else d
+    def read_rows(self):
+        out = []
+        for k, callee, ws, c in self.T.read_rows():
+            ws2 = [(re.sub(r'^index\((\w+), RangeFull\)$', r'\1', w), self._c(cc)) for w, cc in ws]
+            out.append((k, callee, [(w, cc) for w, cc in ws2 if cc], self._c(c)))
+        return out
+    def return_rows(self, items=None):
+        rows = self.T.return_rows(items)
+        return {p: {v: self._c(c) for v, c in d.items() if self._c(c)} for p, d in rows.items()}
+    def value_rows(self, items): return self.return_rows(items)
+
+
 def static_flags(F, name):
     """flag names OR-ed together in the initialiser of a lazy_static PictureOption set"""
     out = None
@@ -587,18 +630,31 @@ def picture(ck, F):
     if fields is None and adt: fields = [f['name'] for f in adt.get('fields', [])]
     if fields != PICTURE_FIELDS:
         ck.violation('A', 'A : types::Picture : fields', None, 'types::Picture has fields %s; the table was written for %s' % (fields, PICTURE_FIELDS)); return
-    # the format comparison used in the RPRP presence condition: |p| p.format != format
+    # the format comparison of the RPRP presence condition, in either spelling: previous_picture.map(|p| p.format != format) (closure checked here)
+    # or a guard `previous.format != format` on the Some arm; both are read as the atom fmtdiff(<this picture's format>)
     from ..dataflow import expr_of, expr_str, ematch
-    cn = name + '::{closure#1}'
-    try:
-        cb = F.body(cn)
-        ce = expr_of(F, cb, {'o': 'copy', 'p': {'l': 0, 'proj': []}})
-        up = {v: int(k) for k, v in cb.get('upvars', {}).items()}
-        okc = 'format' in up and ematch(('callp', 'PartialEq::ne', ('param', 2, (PICTURE_FIELDS.index('format'),)), ('param', 1, (up['format'],))), ce) is not None
-        if okc: ck.ok('A', 'RPRP presence: the closure compares the previous picture\'s format with this picture\'s format (p.format != format)', where_of(cb))
-        else: ck.violation('A', 'A : decode_picture : format comparison', where_of(cb), 'the closure of the RPRP presence condition is %s, expected p.format != format' % expr_str(ce, cb.get('debug', {})))
-    except (KeyError, Unanalysable) as e:
-        ck.violation('A', 'A : decode_picture : format comparison missing', where_of(b), 'closure %s not found (%s)' % (cn, e))
+    fidx = PICTURE_FIELDS.index('format')
+    closures = set()
+    def canon_atom(txt):
+        m = re.match(r'^map\(previous_picture, \{closure#(\d+)\}\((.*)\)\)$', txt)
+        if m:
+            closures.add(int(m.group(1))); return 'fmtdiff(%s)' % m.group(2)
+        m = re.match(r'^ne\(previous_picture\.as1\.0\.%d, (.*)\)$' % fidx, txt)
+        if m: return 'fmtdiff(%s)' % m.group(1)
+        return txt
+    T = View(T, rename=canon_atom)
+    T.read_rows()            # collects the closures used
+    for k in sorted(closures):
+        cn = '%s::{closure#%d}' % (name, k)
+        try:
+            cb = F.body(cn)
+            ce = expr_of(F, cb, {'o': 'copy', 'p': {'l': 0, 'proj': []}})
+            up = {v: int(q) for q, v in cb.get('upvars', {}).items()}
+            okc = 'format' in up and ematch(('callp', 'PartialEq::ne', ('param', 2, (fidx,)), ('param', 1, (up['format'],))), ce) is not None
+            if okc: ck.ok('A', 'RPRP presence: the closure compares the previous picture\'s format with this picture\'s format (p.format != format)', where_of(cb))
+            else: ck.violation('A', 'A : decode_picture : format comparison', where_of(cb), 'the closure of the RPRP presence condition is %s, expected p.format != format' % expr_str(ce, cb.get('debug', {})))
+        except (KeyError, Unanalysable) as e:
+            ck.violation('A', 'A : decode_picture : format comparison missing', where_of(b), 'closure %s not found (%s)' % (cn, e))
     rename = match_reads(ck, T, fn, spec['reads'], b)
     if rename is None: return
     ret = dict(spec['ret']); ret.update(spec['flags'])
